@@ -1,0 +1,17 @@
+//! Verification hook (only compiled with `--cfg libp2p_verif`): read-only view of the private
+//! "permanent" flag of every stored address so that a model checker does not merge states that
+//! differ only in it. Declared as a child module of `memory_store`. No behaviour is changed.
+
+use libp2p_core::Multiaddr;
+
+impl<T> super::PeerRecord<T> {
+    /// (address, is_permanent) in the order of [`PeerRecord::addresses`](super::PeerRecord::addresses).
+    #[doc(hidden)]
+    pub fn verif_flags(&self) -> Vec<(Multiaddr, bool)> {
+        self.addresses
+            .iter()
+            .rev()
+            .map(|(a, p)| (a.clone(), *p))
+            .collect()
+    }
+}
